@@ -18,8 +18,8 @@ open Huginn.Http1 Huginn.Http1.Spec
 
 /-- **head_report (requests).** For every well-formed request head (any of the 18 supported methods,
 any header names incl. case variants and duplicates, any UTF-8 values, any OWS, 0..100 headers, lines
-up to 8192 bytes, CRLF line ends; at most one Cookie and one Referer field; Accept-Language per
-RFC 7231), every body and every HTTP/2 processor behind the HTTP/1 one:
+up to 8192 bytes, CRLF line ends; Cookie and Referer lines may repeat like any other; Accept-Language
+per RFC 7231), every body and every HTTP/2 processor behind the HTTP/1 one:
 `HttpProcessors::parse_request` on `render h ++ body` reports exactly `reportReq h`. -/
 theorem head_report_req (h2 : H2) (h : ReqHead) (body : Bytes) (wf : WFReq h) :
     processorsParseRequest h2 (renderReq h ++ body) = some (some (reportReq h)) := by
@@ -125,6 +125,23 @@ example : parseResponse (ascii "HTTP/1.1 200 OK\r\nServer: x\r\n\r\n" ++ [0x1f, 
     parseResponse (ascii "HTTP/1.1 200 OK\r\nServer: x\r\n\r\n") := by decide +kernel
 
 /-! ### regression: the witnesses of the repaired findings now satisfy the statement -/
+
+/-- two Cookie lines (any letter case, anywhere) and two Referer lines: the cookies of both lines are
+reported in wire order, numbered through; the referer is the last line's (was: only `b=2`) -/
+private def twoCookies : ReqHead :=
+  { method := ascii "GET", target := ascii "/", ver := .v11,
+    fields := [⟨ascii "Cookie", [SP], ascii "a=1; x", []⟩, ⟨ascii "Referer", [SP], ascii "r1", []⟩,
+               ⟨ascii "Host", [SP], ascii "h", []⟩, ⟨ascii "COOKIE", [SP], ascii "b=2", []⟩,
+               ⟨ascii "referer", [SP], ascii "r2", []⟩] }
+
+example : WFReq twoCookies ∧
+    (reportReq twoCookies).cookies = [⟨ascii "a", some (ascii "1"), 0⟩, ⟨ascii "x", none, 1⟩, ⟨ascii "b", some (ascii "2"), 2⟩] ∧
+    (reportReq twoCookies).referer = some (ascii "r2") ∧ (reportReq twoCookies).headers.length = 1 := by
+  decide +kernel
+
+example : processorsParseRequest ⟨fun _ => none, fun _ => none⟩ (renderReq twoCookies) = some (some (reportReq twoCookies)) := by
+  decide +kernel
+
 
 private def noH2 : H2 := ⟨fun _ => none, fun _ => none⟩
 
